@@ -116,9 +116,9 @@ def main():
     # ---- 6.3 refactorings ----
     rdirs = sorted(glob.glob(os.path.join(VERIF, 'refactors', '*', 'meta.json')))
     if rdirs:
-        out.append('### 6.3 Behaviour-preserving refactorings: the checks stay silent\n\nThe converse experiment. Fresh sub-agents (again given only one property text and a scratch worktree) were asked for three *refactorings* each: renamed or retyped private members, loops turned into algorithms and back, equivalent arithmetic and conditions (with the same behaviour at the integer limits), helper functions split or merged, different exception classes below `std::exception`, reworded messages, moved or removed copies. `refactors/import.py` keeps a refactoring if it applies and the 141 tests pass with it; `refactors/run.py` then runs, against the patched tree, the quick check of the property it was written for and of every other property whose anchors name a touched file. Every run must exit 0 without a VIOLATION line.\n\n')
+        out.append('### 6.3 Behaviour-preserving refactorings and property-preserving changes: the checks stay silent\n\nThe converse experiment. Fresh sub-agents (again given only one property text and a scratch worktree) were asked for three *refactorings* each: renamed or retyped private members, loops turned into algorithms and back, equivalent arithmetic and conditions (with the same behaviour at the integer limits), helper functions split or merged, different exception classes below `std::exception`, reworded messages, moved or removed copies. `refactors/import.py` keeps a refactoring if it applies and the 141 tests pass with it; `refactors/run.py` then runs, against the patched tree, the quick check of the property it was written for and of every other property whose anchors name a touched file. Every run must exit 0 without a VIOLATION line.\n\n')
         out.append('| id | written for | files touched | checks run | result |\n|---|---|---|---|---|\n')
-        nr = ns = 0
+        nr = ns = nadj = 0
         for d in rdirs:
             m = json.load(open(d))
             rp = os.path.join(os.path.dirname(d), 'result.json')
@@ -126,8 +126,12 @@ def main():
             cs = sorted(r.get('checks', {}).keys())
             alarms = [c for c in cs if r['checks'][c].get('exit') != 0]
             nr += 1; ns += 1 if (cs and not alarms) else 0
-            out.append('| %s | %s | %s | %s | %s |\n' % (m['id'], m['written_for'], ', '.join(f.replace('src/', '') for f in m['files']), ', '.join(cs) if cs else 'not run', ('ALARM in ' + ', '.join(alarms)) if alarms else ('silent' if cs else '-')))
-        out.append('\nTotals: %d refactorings, %d with every selected check silent.\n\n' % (nr, ns))
+            res = ('ALARM in ' + ', '.join(alarms)) if alarms else ('silent' if cs else '-')
+            if alarms and m.get('adjudication'):
+                res += ' - ' + m['adjudication']
+                nadj += 1
+            out.append('| %s | %s | %s | %s | %s |\n' % (m['id'], m['written_for'], ', '.join(f.replace('src/', '') for f in m['files']), ', '.join(cs) if cs else 'not run', res))
+        out.append('\nTotals: %d changes (ids 01a-20c: refactorings; zz1: rename of every private name; P01a-P20c: changes that keep the property they were written for but alter behaviour it does not constrain), %d with every selected check silent, %d with an alarm of the check of *another* property that the change does break (adjudicated in the row). Alarms of the check of the property a change was written for: none on the final run; the four that the P round first produced were false alarms and are listed in section 8.\n\n' % (nr, ns, nadj))
         rn = os.path.join(VERIF, 'mc', 'design_refactor_notes.md')
         if os.path.exists(rn):
             out.append(open(rn).read().rstrip() + '\n\n')
